@@ -79,6 +79,11 @@ def conforms : Ty → Tree → Bool
         | _ => false)
   | .opaque, _ => false
 
+/-- the content of a named scalar (`BoolVal`, `ListArg`): one leaf -/
+def isSingleLeaf : List Tree → Bool
+  | [.leaf _] => true
+  | _ => false
+
 mutual
 /-- every node below `t` is a well-formed value of its own (dynamic) type -/
 def wf : Tree → Bool
@@ -91,7 +96,7 @@ def wf : Tree → Bool
       | none =>
         match namedTy k with
         | some (some e) => wfElems e ks
-        | some none => (match ks with | [.leaf _] => true | _ => false)
+        | some none => isSingleLeaf ks
         | none => false
 /-- the fields of a struct: as many as the type has, each conforming to its static type and well formed -/
 def wfFields : List Ty → List Tree → Bool
